@@ -2787,12 +2787,23 @@ func (ck *Check) cacheSynced(rule string) {
 	}
 	ctx := ck.P.NewCtx(fn)
 	isSyncedType := func(t types.Type) bool { return strings.HasSuffix(typeName(t), "cache.InformerSynced") }
-	// the informers' HasSynced values: results of type InformerSynced of calls in NewClient
+	// the informers' HasSynced values: results of type InformerSynced of calls in NewClient, or in a
+	// helper NewClient calls to start the informers
 	var synced []ssa.Value
-	for _, b := range fn.Blocks {
-		for _, in := range b.Instrs {
-			if ex, ok := in.(*ssa.Extract); ok && isSyncedType(ex.Type()) {
-				synced = append(synced, ex)
+	scope := []*ssa.Function{fn}
+	for _, ci := range callsIn(fn, nil) {
+		if h := ci.Common().StaticCallee(); h != nil && ck.P.inRepo(h) && h.Blocks != nil && pkgPathOfFn(h) == pkgPathOfFn(fn) {
+			scope = append(scope, h)
+		}
+	}
+	for _, f := range scope {
+		for _, b := range f.Blocks {
+			for _, in := range b.Instrs {
+				if ex, ok := in.(*ssa.Extract); ok && isSyncedType(ex.Type()) {
+					if c, ok := ex.Tuple.(*ssa.Call); ok && c.Common().StaticCallee() != nil && c.Common().StaticCallee().Signature.Results().Len() == 3 {
+						synced = append(synced, ex)
+					}
+				}
 			}
 		}
 	}
@@ -2832,6 +2843,29 @@ func (ck *Check) cacheSynced(rule string) {
 	// both informers are waited for
 	last := wait.Common().Args[len(wait.Common().Args)-1]
 	els, ok := variadicElems(last)
+	if !ok {
+		// the functions were collected into a field by the helper that started the informers:
+		// every slice literal stored into that field, anywhere in scope
+		if ld, isLoad := last.(*ssa.UnOp); isLoad && ld.Op == token.MUL {
+			if fa, isFA := ld.X.(*ssa.FieldAddr); isFA {
+				f := fieldOfAddr(fa)
+				for _, g := range scope {
+					for _, b := range g.Blocks {
+						for _, in := range b.Instrs {
+							st, isSt := in.(*ssa.Store)
+							if !isSt || fieldOfAddr(st.Addr) != f {
+								continue
+							}
+							if e2, ok2 := variadicElems(st.Val); ok2 {
+								els = append(els, e2...)
+								ok = true
+							}
+						}
+					}
+				}
+			}
+		}
+	}
 	covered := 0
 	if ok {
 		for _, sv := range synced {
